@@ -103,18 +103,29 @@ def extend(g, api):
     def ncid_codes():
         a = ncid_arm()
         seq = re.findall(r'TransportError::([A-Z_]+)\(', a)
-        exp = ['PROTOCOL_VIOLATION', 'PROTOCOL_VIOLATION', 'CONNECTION_ID_LIMIT_ERROR', 'CONNECTION_ID_LIMIT_ERROR']
-        if [s for s in seq] != exp and not (len(seq) == 4 and all(s in LEANCODE for s in seq)):
+        if len(seq) != 5 or any(x not in LEANCODE for x in seq):
             raise TranslateError(f'NEW_CONNECTION_ID arm: error sites {seq}')
         need(r'if self\.rem_cids\.active\(\)\.is_empty\(\) \{ return Err\(TransportError::' + seq[0], a, 'arm: cids not in use')
         need(r'if frame\.retire_prior_to > frame\.sequence \{ return Err\(TransportError::' + seq[1], a, 'arm: retire_prior_to > sequence')
+        need(r'const MAX_PENDING_RETIRED_CIDS: u64 = CidQueue::LEN as u64 \* \d+; match self\.rem_cids\.insert\(frame\) \{ Ok\(None\) => \{\}', a,
+             'arm: limit constant shared by both arms')
         need(r'Err\(InsertError::ExceedsLimit\) => \{ return Err\(TransportError::' + seq[3], a, 'arm: ExceedsLimit mapping')
-        need(r'Err\(InsertError::Retired\) => \{ .*?\.retire_cids \.push\(frame\.sequence\); continue; \}', a, 'arm: Retired mapping')
+        need(r'Err\(InsertError::Retired\) => \{ .*?let pending_retired = &mut self\.spaces\[SpaceId::Data\]\.pending\.retire_cids; '
+             r'if [^{]+\{ return Err\(TransportError::' + seq[4] + r'\( "[^"]*", \)\); \} pending_retired\.push\(frame\.sequence\); continue; \}', a,
+             'arm: Retired mapping (bounded push)')
         need(r'if self\.side\.is_server\(\) && self\.rem_cids\.active_seq\(\) == 0 \{ .*?self\.update_rem_cid\(\); \}', a, 'arm: server switches off initial CID')
         return seq
-    for k, lean in enumerate(['ncidNotInUseCode', 'ncidRetireUnissuedCode', 'ncidTooManyRetiredCode', 'ncidExceedsLimitCode']):
+    for k, lean in enumerate(['ncidNotInUseCode', 'ncidRetireUnissuedCode', 'ncidTooManyRetiredCode', 'ncidExceedsLimitCode',
+                              'ncidRetiredArmFullCode']):
         g.nat(lean, f'quinn-proto/src/connection/mod.rs::process_payload NEW_CONNECTION_ID error site {k}',
               lambda k=k: LEANCODE[ncid_codes()[k]])
+
+    def ncid_retired_arm_full():
+        a = ncid_arm()
+        m = need(r'Err\(InsertError::Retired\) => \{ .*?if \(pending_retired\.len\(\) as u64\)(\.saturating_add\(1\) > MAX_PENDING_RETIRED_CIDS) \{', a,
+                 'arm: Retired bound')
+        return 'fun pending_len => ' + tx('pending_len' + m.group(1), {'pending_len': 'pending_len', 'MAX_PENDING_RETIRED_CIDS': 'maxPendingRetiredCids'})
+    g.term('ncidRetiredArmFull', 'Nat → Bool', 'quinn-proto/src/connection/mod.rs::process_payload NEW_CONNECTION_ID already-retired arm bound', ncid_retired_arm_full)
 
     def ncid_too_many():
         a = ncid_arm()
@@ -169,13 +180,17 @@ def extend(g, api):
         return LEANCODE[seq[0]]
     g.nat('ackFreqTooSmallCode', 'quinn-proto/src/connection/ack_frequency.rs::ack_frequency_received error site', ackfreq_code)
 
-    def candidate_shape():
+    def candidate_upper():
+        """`let upper = <expr>; … .clamp(min_ack_delay, upper)`: the upper clamp bound as a function of rtt and the
+        peer's min_ack_delay (both ns)"""
         b = norm(fn_body(read('quinn-proto/src/connection/ack_frequency.rs'), 'candidate_max_ack_delay'))
-        need(r'let min_ack_delay = Duration::from_micros\(peer_params\.min_ack_delay\.map_or\(0, \|x\| x\.into\(\)\)\); '
-             r'config \.max_ack_delay \.unwrap_or\(self\.peer_max_ack_delay\) \.clamp\(min_ack_delay, rtt\.max\(MIN_AUTOMATIC_ACK_DELAY\)\)', b,
-             'candidate_max_ack_delay')
-        return 1
-    g.nat('candidateMaxAckDelayShape', 'quinn-proto/src/connection/ack_frequency.rs::candidate_max_ack_delay (clamp shape; 1 = as modelled)', candidate_shape)
+        need(r'let min_ack_delay = Duration::from_micros\(peer_params\.min_ack_delay\.map_or\(0, \|x\| x\.into\(\)\)\);', b,
+             'candidate_max_ack_delay min_ack_delay')
+        m = need(r'let upper = ([^;]+); config \.max_ack_delay \.unwrap_or\(self\.peer_max_ack_delay\) \.clamp\(min_ack_delay, upper\) \}$', b,
+                 'candidate_max_ack_delay clamp')
+        return 'fun rtt min_ack_delay => ' + tx(m.group(1), {'rtt': 'rtt', 'min_ack_delay': 'min_ack_delay',
+                                                             'MIN_AUTOMATIC_ACK_DELAY': 'minAutomaticAckDelayNs'})
+    g.term('candidateUpper', 'Nat → Nat → Nat', 'quinn-proto/src/connection/ack_frequency.rs::candidate_max_ack_delay upper clamp bound', candidate_upper)
 
     def tp_ack_delay():
         t = norm(read('quinn-proto/src/transport_parameters.rs'))
